@@ -321,3 +321,91 @@ PROPS['C05'] = dict(
              'value of / (quotient): proved by Kani against the division theorem only in the thorough tier; quick: same grid'],
     not_decided=['precedence/associativity/literals (grammar): witnesses only'],
 )
+
+
+# ------------------------------------------------------------------------------------------------ C02 / C06
+def witnesses_layout(tier, seed, with_org=True):
+    import layout_sem
+    ws = layout_sem.witnesses(300 if tier == 'quick' else 3000, seed or 9)
+    jobs = ['build\n' + w[0] for w in ws]
+    # fixed boundary cases
+    fixed = [
+        ('org_zero_after_code', 'nop\n.org 0\nnop\n', 'error'),     # `.org 0` after code must not silently continue at the running offset
+        ('org_at_running_offset', 'nop\nnop\n.org 2\nl: nop\n.dw l\n', dict(code='0000000000000200')),
+        ('org_gap_zero_filled', 'nop\n.org 4\nl: ldi r16, 1\n.dw l\n', dict(code='000000000000000001e00400')),
+        ('org_below_offset_rejected', 'nop\nnop\nnop\n.org 2\nnop\n', 'error'),
+        ('db_odd_twice', '.db 1\n.db 2\nl: .dw l\n', dict(code='010002000200')),
+        ('eeprom_no_pad', '.eseg\n.db 1\n.db 2, 3, 4\nl: .dw l\n.byte 3\n.db 9\n', dict(eeprom='0102030404000000' + '0009'[2:] if False else '01020304040000000009')),
+        ('dseg_labels', '.dseg\na: .byte 3\nb: .byte 2\n.cseg\n.dw a, b\n', dict(code='60006300', ram_filling=5)),
+        ('string_in_dw_fails', '.dw "ab"\n', 'error'),
+        ('db_in_dseg_fails', '.dseg\n.db 1\n', 'error'),
+        ('byte_in_cseg_fails', '.byte 2\n', 'error'),
+    ]
+    if not with_org:
+        fixed = [f for f in fixed if not f[0].startswith('org_zero')]
+    jobs += ['build\n' + f[1] for f in fixed]
+    res = replay.run_jobs(jobs)
+    out = []
+    for (src, code, ee, ram), r in zip(ws, res):
+        ok = r.get('status') == 'ok' and r['code'] == code.hex() and r['eeprom'] == ee.hex() and r['ram_filling'] == ram
+        out.append(WitnessResult('layout:' + src.strip().replace('\n', ' ; ')[:80], 'build\n' + src, ok,
+                                 dict((k, r.get(k)) for k in ('status', 'code', 'eeprom', 'ram_filling', 'err')),
+                                 dict(code=code.hex(), eeprom=ee.hex(), ram_filling=ram), 'layout'))
+    for (name, src, exp), r in zip(fixed, res[len(ws):]):
+        if exp == 'error':
+            ok = r.get('status') == 'err'
+        else:
+            ok = r.get('status') == 'ok' and all(r.get(k) == v for k, v in exp.items())
+        out.append(WitnessResult(name, 'build\n' + src, ok, dict((k, r.get(k)) for k in ('status', 'code', 'eeprom', 'ram_filling', 'err')), exp, 'org' if name.startswith('org_zero') else 'layout'))
+    return out
+
+
+LAYOUT_ASSUME = [
+    'segment creation by .org/.cseg/.dseg/.eseg (Directive::parse) and the parser are not under contract: bound by the layout witnesses '
+    '(generated programs with interleaved segments, .org gaps, odd .db lists, label tables; reference model spec/layout_sem.py)',
+    'pass 2 precondition seg_wf2/segs_wf2 is what pass 1 proves (#prefix_ok #out_items #segs_ok #segs_out #end_limit) plus: no Operation::Custom '
+    'reaches pass 2 (pass 0 expands or rejects every macro call) and every device memory is below 2^29 units (all table rows, checked in C12); '
+    'the composition pass1 -> pass2 is by matching these clauses, not a single machine-checked theorem over build_from_parsed',
+    'R9 / A-alias: tables behind Rc<RefCell<..>> are modelled as one ghost record owned by the build; stubs for set_label/set_special/set_def/'
+    'exist/defs.remove/sets.get/sets.insert state the HashMap semantics of context.rs (proved for the getters in unit CTX where claimed)',
+    'process / Device::check_operation / GetData / Expr::run appear in PASS2 as stubs carrying the contracts proved in ENC/ENCV, DEV, DATA, EXPR',
+    'std: String::len/as_bytes = UTF-8 bytes (uninterpreted utf8()), slice::to_vec, Vec::extend (R4), "lit".to_string() (R15), to_lowercase',
+    'machine memory: the byte counts of all operands of one Vec<Operand> add up to less than 2^64 (axiom mem_bound)',
+]
+PROPS['C02'] = dict(
+    level_text='Proof (Verus, unbounded, induction over items and segments): pass 1 (verbatim) assigns every label the segment start plus '
+               'the oracle size of all items before it, places segments at the running offset of their memory or their .org address, '
+               'rejects overlap and capacity overflow, and hands pass 2 the sized items; pass 2 (verbatim) is proved equal to a fold '
+               'oracle: each item emitted at its own address (pc and the address passed to process are that address), fragments '
+               'appended after zero-filled gaps at 2*address / address, nothing emitted is overwritten; emitted sizes equal the sizes '
+               'pass 1 accounted for (bridges from ENCV #length/#words and DATA #len_*).',
+    level_note='parser/segment creation assumed (witnesses); pass1->pass2 composition by matching clauses; `.org 0` after code is a recorded finding',
+    technique='Verus loop invariants on extracted pass_1_internal/build_pass_1/pass_2_internal/build_pass_2 against recursive layout and fold oracles',
+    verus=['pass1', 'pass2', 'data', 'encv'],
+    witnesses=witnesses_layout,
+    functions=['builder::pass1::{build_pass_1, pass_1_internal, next_address}', 'builder::pass2::{build_pass_2, pass_2_internal}',
+               'directive::{Operand::*, GetData for Vec<Operand>}', 'instruction::process (length), Operation::info'],
+    explanation='Oracles: contracts/layout.vinc (item sizes from the property text), labels_after/prefix_ok/offs (pass 1), run2/runsegs folds (pass 2). '
+                'Derived lemmas (label_value, labels_distinct, old_labels_kept) turn the recursive facts into the quantified statements of C02/C10.',
+    assumptions=LAYOUT_ASSUME,
+    trusted=['spec/layout_sem.py (reference layout model for the witnesses)'],
+    bounded=['layout witnesses: 300 (quick) / 3000 (thorough) generated programs + 10 fixed boundary programs through build_str'],
+)
+PROPS['C06'] = dict(
+    level_text='Proof: (Verus, unbounded) GetData for Vec<Operand> returns the operands\' bytes concatenated in source order with exact '
+               'element width, strings as their UTF-8 bytes in .db and Err in .dw/.dd/.dq, actual_len = byte count; pass 1 pads an odd '
+               '.db list in flash with exactly one zero operand and nothing in EEPROM, rejects data in .dseg and .byte in .cseg; pass 2 '
+               'emits .byte n as n zero bytes; (Kani, complete) get_byte/get_words/get_double_words/get_quad_words give the little-endian '
+               'bytes of v mod 2^w exactly on the fit ranges for all i64.',
+    level_note='as C02; the element conversion is split: range half in Verus (unit EXPR), byte values in Kani (conv) on the leaf view of expressions',
+    technique='Verus list-fold invariants on the extracted GetData impl + Kani conversion harnesses + pass1/pass2 contracts',
+    verus=['data', 'pass1', 'pass2', 'expr'],
+    kani=[dict(slice='conv', harnesses=lambda tier: _conv_harnesses(tier))],
+    witnesses=lambda tier, seed: witnesses_layout(tier, seed, with_org=False),
+    functions=['directive::{Operand::len/get_bytes/get_words/get_double_words/get_quad_words, GetData for Vec<Operand>}',
+               'expr::Expr::get_byte/get_words/get_double_words/get_quad_words', 'pass 1 / pass 2 data arms'],
+    explanation='list_bytes/op_bytes/alen in contracts/data.vspec are the oracle; elem_bytes is the uninterpreted bridge to the conversions.',
+    assumptions=LAYOUT_ASSUME,
+    trusted=['spec/layout_sem.py'],
+    bounded=PROPS['C02']['bounded'],
+)
